@@ -128,6 +128,11 @@ function itemExprs(thorough) {
     ['index', id('index'), false],
     ['item.v + 1', M.bin('+', M.mem(item, 'v'), M.lit('1')), false],
     ['c ? item.v : z', M.cond(id('c'), M.mem(item, 'v'), id('z')), 'data-cond'],
+    // a conditional under a member suffix, its condition independent of the one a conditional list uses (the item path is
+    // null at run time when the list branch taken has no path)
+    ['(z ? item : a).v', M.mem(M.grp(M.cond(id('z'), item, id('a'))), 'v'), 'data-or-none'],
+    ['(z ? a : item)[k]', M.idx(M.grp(M.cond(id('z'), id('a'), item)), k), 'data-or-none'],
+    ['z ? item : a', M.cond(id('z'), item, id('a')), 'data-cond'],
   ]
 }
 
